@@ -362,23 +362,82 @@ Definition count_ge (t : Q) (l : list Q) : nat := length (filter (fun m => Qle_b
 Definition recall_of (rnd : Q -> Q) (t : Q) (pps : list ppair) (n_fn : nat) : Q :=
   rnd (nq (count_ge t (map pp_oks pps)) / nq (length pps + n_fn)).
 
+(* ---- clause (e): deleting predicted instance p of a frame pair, as the labels see it: the instance, its
+   score and its column of the OKS matrix disappear and the later predictions move down by one ---- *)
+Definition pop_col (p : nat) (M : smatrix) : smatrix := map (pop_at p) M.
+Definition del_pred (p : nat) (fp : gframe * pframe) : gframe * pframe :=
+  let '((i, gts, M), (j, prs, scores)) := fp in
+  ((i, gts, pop_col p M), (j, pop_at p prs, pop_at p scores)).
+(* index of a surviving prediction after / before the deletion of p *)
+Definition down (p q : nat) : nat := if (q <? p)%nat then q else Nat.pred q.
+Definition up (p q : nat) : nat := if (q <? p)%nat then q else S q.
+(* the predictions processed after p in a processing order *)
+Fixpoint after (p : nat) (o : list nat) : list nat :=
+  match o with [] => [] | q :: t => if (q =? p)%nat then t else after p t end.
+
+(* selector of finding F6, executable (LemmasDelete2.selector_F6b_iff: = LemmasDelete.selector_F6): the deleted
+   prediction p was matched to a gt instance g and some prediction q processed later is eligible for g
+   (OKS(g,q) > thr) and was itself unmatched or matched with an OKS <= OKS(g,q) *)
+Definition selector_F6b (M : smatrix) (thr : Q) (p : nat) (o2 : list nat) (ms : list mpair) : bool :=
+  existsb (fun m : mpair =>
+     (snd (fst m) =? p)%nat &&
+     existsb (fun q => match mget M (fst (fst m)) q with
+                       | Some x => Qltb thr x &&
+                                   forallb (fun m' : mpair => negb (snd (fst m') =? q)%nat || Qle_bool (snd m') x) ms
+                       | None => false
+                       end) o2) ms.
+Definition frame_selector_F6 (thr : Q) (fp : gframe * pframe) (p : nat) : bool :=
+  let '((_, gts, M), (_, _, scores)) := fp in
+  let order := argsort_desc scores in
+  selector_F6b M thr p (after p order) (fst (match_loop M thr order (seq 0 (length gts)))).
+(* ... for prediction k of the prediction frame at position j of the prediction labels (every frame pair it is in) *)
+Definition labels_selector_F6 (ulo : bool) (thr : Q) (db : oksdb) (gtL prL : labels) (j k : nat) : bool :=
+  existsb (fun x : (nat * nat) * (gframe * pframe) =>
+             (snd (fst x) =? j)%nat && frame_selector_F6 thr (snd x) k)
+          (find_pairs_pos ulo db gtL prL).
+
+(* ---- clause (a): selectors of findings F160 / F161 on a frame pair whose predictions are copies of the gt
+   instances.  F160: a cross pair (gt i, copy of gt j), i <> j, whose OKS is not < 1 (two animals that coincide
+   on the visible keypoints of one of them: the greedy matching may pair them crosswise).  F161: a gt instance
+   without a visible keypoint (its OKS row is NaN: never matched, a false negative). ---- *)
+Definition cross_ok (M : smatrix) (i j : nat) : bool :=
+  (i =? j)%nat || match mget M i j with Some q => Qltb q 1 | None => true end.
+Definition frame_selector_F160 (fp : gframe * pframe) : bool :=
+  let '((_, gts, M), _) := fp in
+  let n := length gts in
+  negb (forallb (fun i => forallb (fun j => cross_ok M i j) (seq 0 n)) (seq 0 n)).
+Definition frame_selector_F161 (fp : gframe * pframe) : bool :=
+  let '((_, gts, _), _) := fp in existsb (fun g => (n_visible g =? 0)%nat) gts.
+Definition labels_selector_F16x (ulo : bool) (db : oksdb) (gtL prL : labels) : bool * bool :=
+  (existsb frame_selector_F160 (find_pairs ulo db gtL prL),
+   existsb frame_selector_F161 (find_pairs ulo db gtL prL)).
+
 (* ---- entry points for the correspondence harness ---- *)
 Inductive case :=
 | CEval (fixed_F51 ulo : bool) (thr : Q) (n_nodes : nat) (db : oksdb) (gtL prL : labels)
         (mthrs rthrs pthrs : list Q)
 | CEval2 (fixed_F51 ulo1 ulo2 : bool) (thr : Q) (n_nodes : nat) (db : oksdb) (gtL prL : labels)
         (mthrs rthrs pthrs : list Q)
-| CRnd (l : list Q).
+| CRnd (l : list Q)
+| CSel (second : option bool) (ulo : bool) (thr : Q) (db : oksdb) (gtL prL : labels) (j k : nat)
+| CSel60 (second : option bool) (ulo : bool) (db : oksdb) (gtL prL : labels).
 
 Inductive result :=
 | REval (r : outcome report)
-| RRnd (l : list Q).
+| RRnd (l : list Q)
+| RSel (b : bool)
+| RSel2 (b : bool * bool).
 
 Definition run (c : case) : result :=
   match c with
   | CEval f u t n d g p m r k => REval (evaluate round_f64 f u t n d g p m r k)
   | CEval2 f u u2 t n d g p m r k => REval (evaluate_after round_f64 f u u2 t n d g p m r k)
   | CRnd l => RRnd (map round_f64 l)
+  | CSel None u t d g p j k => RSel (labels_selector_F6 u t d g p j k)
+  | CSel (Some u2) u t d g p j k =>
+      RSel (labels_selector_F6 u2 t (mutate_db u g p d) (mutate_gt u g p) p j k)
+  | CSel60 None u d g p => RSel2 (labels_selector_F16x u d g p)
+  | CSel60 (Some u2) u d g p => RSel2 (labels_selector_F16x u2 (mutate_db u g p d) (mutate_gt u g p) p)
   end.
 
 From SV Require Import Base.Render.
@@ -400,4 +459,6 @@ Definition rresult (r : result) : rdr :=
   | REval ErrEmpty => rquoted "ErrEmpty"%string
   | REval ErrValue => rquoted "ErrValue"%string
   | RRnd l => rlist rQ l
+  | RSel b => rbool b
+  | RSel2 b => rpair rbool rbool b
   end.
